@@ -1,9 +1,13 @@
 /-
 Vocabulary in which the theorems of C03 are stated: the documented semantics of the BibTeX
 style language ("Designing BibTeX styles", btxhak sections 3–5: the stack machine, the ten
-commands, the 37 built-in functions).  This file is what a reader has to agree with; nothing
-here depends on how the interpreter model (`Model/Interp.lean`) is written, it only shares its
-data types (`Val`, `Builtin`, `VarObj`, `St`, `IErr`).
+commands, the 37 built-in functions).  This file is what a reader has to agree with.  It shares
+the data types of the interpreter model (`Val`, `Builtin`, `VarObj`, `St`, `IErr` of
+`Model/Interp.lean`) and the string functions that have their own properties (C12: `substring$`,
+`text.length$`, `text.prefix$`, `purify$`, `change.case$`; C11: `format.name$`; C19: `wrap`); the
+big-step judgements `EvalVal` … are the model's fuelled functions with the fuel quantified away;
+everything else (order, sortedness, stability, folds, output events, frames, declarations, the
+table `Doc` of the stack-only built-ins) is defined here independently of the interpreter.
 
 Conventions.  The documentation writes a stack with its top LAST ("`a b +`"); in a state `s`
 the top of the stack is the HEAD of `s.stack`.  So the documented operand list
@@ -13,6 +17,7 @@ A string operand may be a missing field: `valToStr` reads `Val.missing _` as the
 (`MissingField` is a subclass of `str` with value `""`), and only `missing$` tells them apart.
 -/
 import PybtexModel.Model.Interp
+import PybtexModel.Spec.TeXString
 
 namespace Pybtex.BstSem
 open Pybtex.Interp
@@ -65,6 +70,50 @@ inductive LexLt : Str → Str → Prop
   | nil {c : Char} {t : Str} : LexLt [] (c :: t)
   | lt {a b : Char} {r t : Str} : a.toNat < b.toNat → LexLt (a :: r) (b :: t)
   | eq {a : Char} {r t : Str} : LexLt r t → LexLt (a :: r) (a :: t)
+
+/-! ### the built-ins that only transform the stack -/
+
+/-- The documented effect of the built-in functions that only transform the stack, as a table:
+`Doc b args res` — called with the operands `args` on top of the stack (top FIRST, i.e. in the
+reverse of the documentation's order) the built-in `b` replaces them by `res`.
+(`write$`, `newline$`, `warning$`, `top$`, `stack$`, `:=`, `cite$`, `type$`, `preamble$`,
+`call.type$`, `if$`, `while$` involve more of the state and have their own theorems.) -/
+inductive Doc : Builtin → List Val → List Val → Prop
+  | plus (a b : Int) : Doc .plus [.int b, .int a] [.int (a + b)]
+  | minus (a b : Int) : Doc .minus [.int b, .int a] [.int (a - b)]
+  | concat {vx vy : Val} {x y : Str} : valToStr vx = some x → valToStr vy = some y → Doc .mul [vy, vx] [.str (x ++ y)]
+  | gt (a b : Int) : Doc .gt [.int b, .int a] [.int (if a > b then 1 else 0)]
+  | lt (a b : Int) : Doc .lt [.int b, .int a] [.int (if a < b then 1 else 0)]
+  | eqInt (a b : Int) : Doc .eq [.int b, .int a] [.int (if a = b then 1 else 0)]
+  | eqStr {vx vy : Val} {x y : Str} : valToStr vx = some x → valToStr vy = some y →
+      Doc .eq [vy, vx] [.int (if x = y then 1 else 0)]
+  | duplicate (v : Val) : Doc .duplicate [v] [v, v]
+  | pop (v : Val) : Doc .pop [v] []
+  | swap (v w : Val) : Doc .swap [w, v] [v, w]
+  | skip : Doc .skip [] []
+  | quote : Doc .quote [] [.str ['"']]
+  | empty {v : Val} {x : Str} : valToStr v = some x → Doc .empty [v] [.int (if Blank x then 1 else 0)]
+  | missingYes (m : Str) : Doc .missing [.missing m] [.int 1]
+  | missingNo {v : Val} : (∀ m, v ≠ .missing m) → Doc .missing [v] [.int 0]
+  | chrToInt (c : Char) : Doc .chrToInt [.str [c]] [.int c.toNat]
+  | intToChr {n : Int} : 0 ≤ n → n < 0x110000 → Doc .intToChr [.int n] [.str [Char.ofNat n.toNat]]
+  | intToStr (n : Int) : Doc .intToStr [.int n] [.str (toString n).toList]
+  | substring {v : Val} {x : Str} (start len : Int) : valToStr v = some x →
+      Doc .substring [.int len, .int start, v] [.str (Spec.substring x start len)]
+  | textLength {v : Val} {x : Str} {n : Nat} : valToStr v = some x → bibtexLen x = some n → Doc .textLength [v] [.int n]
+  | textPrefix {v : Val} {x p : Str} (n : Int) : valToStr v = some x → bibtexPrefix x n = some p →
+      Doc .textPrefix [.int n, v] [.str p]
+  | purify {v : Val} {x p : Str} : valToStr v = some x → bibtexPurify x = some p → Doc .purify [v] [.str p]
+  | width {v : Val} {x : Str} {w : Int} : valToStr v = some x → bibtexWidthStd x = some w → Doc .width [v] [.int w]
+  | numNames {v : Val} {x : Str} : valToStr v = some x → Doc .numNames [v] [.int (splitNameList x).length]
+  | changeCase {vm vx : Val} {x m y : Str} {c : Char} {md : CaseMode} : valToStr vm = some (c :: m) →
+      valToStr vx = some x → caseModeOf (lowerC c) = some md → changeCase x md = some y →
+      Doc .changeCase [vm, vx] [.str y]
+  | addPeriod (x : Str) : Doc .addPeriod [.str x] [.str (addPeriod x)]
+  | addPeriodMissing (m : Str) : Doc .addPeriod [.missing m] [.missing m]
+  | formatName {vn vf : Val} {names fmt name out : Str} {n : Int} : valToStr vn = some names →
+      valToStr vf = some fmt → 1 ≤ n → (splitNameList names)[(n - 1).toNat]? = some name →
+      formatName name fmt = .ok (out, false) → Doc .formatName [vf, .int n, vn] [.str out]
 
 /-! ### fuel-free big-step judgements
 
